@@ -301,7 +301,11 @@ func (env *SpecEnv) eval(e *SExpr) SpecVal {
 			}
 		}
 		env.bound = append(env.bound, frame)
-		body := env.evalBool(e.Args[0])
+		x.ctx.noDefine++
+		body := func() *Term {
+			defer func() { x.ctx.noDefine-- }()
+			return env.evalBool(e.Args[0])
+		}()
 		var pats [][]*Term
 		for _, p := range e.Pats {
 			var pt []*Term
